@@ -32,6 +32,7 @@ import Flax.Proofs.NnxIter
 import Flax.Proofs.NnxErase
 import Flax.Proofs.NnxCache
 import Flax.Proofs.NnxTotal
+import Flax.Proofs.NnxAccept
 
 namespace Flax.C04
 open Flax.Heap Flax.Graph Flax.Nnx
@@ -219,27 +220,137 @@ theorem switch_rejects_structure_change (fs : List Fn) (index : Int) (h : Heap) 
     (hne : o'.1 ≠ o.1) : switchCall fs index h args = .error .structureMismatch :=
   switchCall_mismatch hs1 htr hmem hne
 
+/-! ## cond / switch: exactly when a call is accepted, rejected, or raises -/
+
+/-- **unconditional form for switch (and cond).**  On a closed heap with at least one branch:
+* if some branch fails eagerly, the call raises the error of the FIRST such branch in trace order, whichever branch
+  is selected (all branches are traced: A-COND);
+* if every branch succeeds eagerly and all traced output structures coincide, the call succeeds and refines the
+  eager run of the selected branch;
+* if every branch succeeds eagerly and two traced output structures differ, the call is `structureMismatch`.
+The three cases are exhaustive, so this says exactly when `structureMismatch` is returned.  `tracedDefs f h args` is
+characterised in eager terms by `traced_output_is_flatten_of_eager`. -/
+theorem switch_total (fs : List Fn) (index : Int) (h : Heap) (args : List PVal) (hc : HeapClosed h)
+    (ha : ∀ v ∈ args, ValClosed h v) (hne : fs ≠ []) :
+    (∀ pre f post e, fs = pre ++ f :: post → (∀ g ∈ pre, ∃ r, runFn g h args = .ok r) → runFn f h args = .error e →
+      switchCall fs index h args = .error e) ∧
+    ((∀ f ∈ fs, ∃ r, runFn f h args = .ok r) →
+      ((∀ f ∈ fs, ∀ g ∈ fs, tracedDefs f h args = tracedDefs g h args) →
+        ∃ outs h4 f, switchCall fs index h args = .ok (outs, h4) ∧ fs[clampIndex index fs.length]? = some f ∧
+          ∀ rets h2, runFn f h args = .ok (rets, h2) → ∃ ψ, RefinesEager h args rets h2 outs h4 ψ) ∧
+      ((∃ f ∈ fs, ∃ g ∈ fs, tracedDefs f h args ≠ tracedDefs g h args) →
+        switchCall fs index h args = .error .structureMismatch)) := by
+  refine ⟨fun pre f post e hfs hpre hf => switch_error hc ha hfs hpre hf, fun hall => ?_⟩
+  obtain ⟨hacc, hrej⟩ := switch_all_ok (index := index) hc ha hne hall
+  refine ⟨fun heq => ?_, hrej⟩
+  obtain ⟨outs, h4, hs⟩ := hacc heq
+  obtain ⟨f, hf, href⟩ := cond_switch_refine fs index h args outs h4 hs
+  exact ⟨outs, h4, f, hs, hf, href⟩
+
+/-- `nnx.cond` on a closed heap: the two-branch instance of `switch_total` (true branch traced first) -/
+theorem cond_total (t f : Fn) (pred : Bool) (h : Heap) (args : List PVal) (hc : HeapClosed h) (ha : ∀ v ∈ args, ValClosed h v) :
+    (∀ e, runFn t h args = .error e → condCall t f pred h args = .error e) ∧
+    (∀ r e, runFn t h args = .ok r → runFn f h args = .error e → condCall t f pred h args = .error e) ∧
+    (∀ rt rf, runFn t h args = .ok rt → runFn f h args = .ok rf →
+      (tracedDefs t h args = tracedDefs f h args →
+        ∃ outs h4, condCall t f pred h args = .ok (outs, h4) ∧
+          ∀ rets h2, runFn (if pred then t else f) h args = .ok (rets, h2) → ∃ ψ, RefinesEager h args rets h2 outs h4 ψ) ∧
+      (tracedDefs t h args ≠ tracedDefs f h args → condCall t f pred h args = .error .structureMismatch)) := by
+  obtain ⟨herr, hok⟩ := switch_total [t, f] (if pred then 0 else 1) h args hc ha (by simp)
+  refine ⟨fun e he => herr [] t [f] e rfl (by simp) he, fun r e hr he => herr [t] f [] e rfl (fun g hg => by simp at hg; subst hg; exact ⟨r, hr⟩) he,
+    fun rt rf hrt hrf => ?_⟩
+  obtain ⟨hacc, hrej⟩ := hok (by
+    intro g hg
+    simp at hg
+    rcases hg with rfl | rfl
+    · exact ⟨rt, hrt⟩
+    · exact ⟨rf, hrf⟩)
+  constructor
+  · intro heq
+    obtain ⟨outs, h4, g, hs, _, _⟩ := hacc (by
+      intro a ha' b hb'
+      simp at ha' hb'
+      rcases ha' with rfl | rfl <;> rcases hb' with rfl | rfl <;> first | rfl | exact heq | exact heq.symm)
+    exact ⟨outs, h4, hs, fun rets h2 he => cond_refine t f pred h args outs h4 hs rets h2 he⟩
+  · intro hne'
+    exact hrej ⟨t, by simp, f, by simp, hne'⟩
+
+/-- **what "the traced output structure" is, in eager terms**: the pure value the traced function returns is the
+`flatten` of the eager result `(cleared arguments, results)`, every definition stamped with the position its object
+had in the input `ref_index` (`none` for objects created by the function).  So two branches have the same
+`tracedDefs` iff their eager results have the same graphdef AND keep / create / re-bind the same caller objects at
+the same places. -/
+theorem traced_output_is_flatten_of_eager (raw keep : Bool) (f : Fn) (pre : List PVal) (hpre : ∀ v ∈ pre, ∃ d, v = PVal.array d)
+    (h : Heap) (vals : List PVal) (gds : List GDef) (fss : List FlatState) (idx1 : RefIndex)
+    (hf : FlatRoots h vals [] gds fss idx1) (nh : AttrsNodup h) (rets : List PVal) (h2 : Heap)
+    (he : runFn f h (pre ++ vals) = .ok (rets, h2)) (o : List ODef × List (List Leaf))
+    (ho : pureRun raw keep f pre gds (fss.map (convLeaves raw)) = .ok o) :
+    ∃ gdsE fssE idxE, FlatRoots h2 ((if keep then vals.map clearArg else []) ++ rets) [] gdsE fssE idxE ∧
+      o = (gdsE.map (stampWith (fun i => (idxE[i]?).bind (fun a => indexOf? a idx1))), fssE.map (convLeaves raw)) :=
+  pureRun_is_eager_canon raw keep f hpre hf nh he ho
+
 /-! ## loops -/
 
 /-- **`nnx.fori_loop(lower, lower + n, body, init)` equals the unrolled Python loop**
-`for i in range(lower, lower + n): val = body(i, val)`, for every trip count (induction on `n`), every heap whose
-attribute dictionaries have distinct keys, every carried tuple (graph nodes, Variables, arrays; aliasing allowed)
+`for i in range(lower, lower + n): val = body(i, val)`, for every trip count (induction on `n`), every well-formed heap
+(`Heap.wf`, C03's hypothesis: Python dicts have distinct keys; every DSL statement preserves it), every carried tuple (graph nodes, Variables, arrays; aliasing allowed)
 and every body the transform accepts (the structure check demands that the carry keeps its graphdef and its
 reference structure).  The address map is the identity: the caller's own objects hold the final values, and the
 final carry consists of the caller's objects. -/
-theorem loops_refine_unrolled (f : Fn) (lower : Int) (n : Nat) (h : Heap) (vals : List PVal) (nh : AttrsNodup h)
+theorem loops_refine_unrolled (f : Fn) (lower : Int) (n : Nat) (h : Heap) (vals : List PVal) (hw : Heap.wf h = true)
     (roots : List PVal) (h4 : Heap) (hc : foriCall f lower n h vals = .ok (roots, h4))
     (valsE : List PVal) (hE : Heap) (he : foriEager f n lower h vals = .ok (valsE, hE)) :
     ∃ χ, LoopRefines h valsE hE roots h4 χ :=
-  fori_refines f lower n h vals nh roots h4 hc valsE hE he
+  fori_refines f lower n h vals (attrsNodup_of_wf hw) roots h4 hc valsE hE he
 
 /-- **`nnx.while_loop(cond, body, init)` equals `while cond(val): val = body(val)`** (induction on the number of
 iterations), for a predicate that only reads its argument -/
 theorem while_refines_unrolled (c f : Fn) (hro : c.readOnly = true) (fuel : Nat) (h : Heap) (vals : List PVal)
-    (nh : AttrsNodup h) (roots : List PVal) (h4 : Heap) (hc : whileCall c f fuel h vals = .ok (roots, h4))
+    (hw : Heap.wf h = true) (roots : List PVal) (h4 : Heap) (hc : whileCall c f fuel h vals = .ok (roots, h4))
     (valsE : List PVal) (hE : Heap) (he : whileEager c f fuel h vals = .ok (valsE, hE)) :
     ∃ χ, LoopRefines h valsE hE roots h4 χ :=
-  while_refines c f hro fuel h vals nh roots h4 hc valsE hE he
+  while_refines c f hro fuel h vals (attrsNodup_of_wf hw) roots h4 hc valsE hE he
+
+/-- **a loop body is accepted exactly when the eager body gives the carry back with the same graphdef and the same
+objects in the same order; it raises exactly the eager body's error; otherwise it is `structureMismatch`** -/
+theorem loop_body_outcome (f : Fn) (pre : List PVal) (hpre : ∀ v ∈ pre, ∃ d, v = PVal.array d)
+    (h : Heap) (vals : List PVal) (gds : List GDef) (fss : List FlatState) (idx1 : RefIndex)
+    (hf : FlatRoots h vals [] gds fss idx1) (nh : AttrsNodup h) :
+    (∀ e, runFn f h (pre ++ vals) = .error e → bodyPure f pre gds (fss.map (convLeaves false)) = .error e) ∧
+    (∀ rets h2, runFn f h (pre ++ vals) = .ok (rets, h2) →
+      ((∃ fssK, FlatRoots h2 rets [] gds fssK idx1) → ∃ lss', bodyPure f pre gds (fss.map (convLeaves false)) = .ok lss') ∧
+      ((¬ ∃ fssK, FlatRoots h2 rets [] gds fssK idx1) →
+        bodyPure f pre gds (fss.map (convLeaves false)) = .error .structureMismatch)) :=
+  body_outcome hpre hf nh
+
+/-- **unconditional form for fori_loop**: if the traced first application and every iteration of the unrolled Python
+loop succeed and give the carry back with the same graphdef and objects (`KeepsCarry`), the call under the transform
+succeeds, the unrolled loop succeeds, and they agree with the identity address map -/
+theorem fori_loop_total (f : Fn) (lower : Int) (n : Nat) (h : Heap) (vals : List PVal) (hw : Heap.wf h = true)
+    (gds : List GDef) (fss : List FlatState) (idx1 : RefIndex) (hf : flattenRoots h vals [] = .ok (gds, fss, idx1))
+    (htrace : KeepsCarry f gds idx1 1 lower h vals) (hk : KeepsCarry f gds idx1 n lower h vals) :
+    ∃ roots h4 valsE hE χ, foriCall f lower n h vals = .ok (roots, h4) ∧ foriEager f n lower h vals = .ok (valsE, hE) ∧
+      LoopRefines h valsE hE roots h4 χ :=
+  fori_total f lower n h vals (attrsNodup_of_wf hw) gds fss idx1 hf htrace hk
+
+/-- the traced first application decides rejection (also for zero trips): an eager failure is raised as is, a carry that
+does not come back with the same graphdef and objects is `structureMismatch` -/
+theorem fori_loop_rejects (f : Fn) (lower : Int) (n : Nat) (h : Heap) (vals : List PVal) (hw : Heap.wf h = true)
+    (gds : List GDef) (fss : List FlatState) (idx1 : RefIndex) (hf : flattenRoots h vals [] = .ok (gds, fss, idx1)) :
+    (∀ e, runFn f h (PVal.array (wrap32 lower) :: vals) = .error e → foriCall f lower n h vals = .error e) ∧
+    (∀ rets h2, runFn f h (PVal.array (wrap32 lower) :: vals) = .ok (rets, h2) →
+      (¬ ∃ fssK, FlatRoots h2 rets [] gds fssK idx1) → foriCall f lower n h vals = .error .structureMismatch) :=
+  fori_trace_outcome f lower n h vals (attrsNodup_of_wf hw) gds fss idx1 hf
+
+/-- **unconditional form for while_loop** (read-only predicate returning one array; the loop ends within the budget) -/
+theorem while_loop_total (c f : Fn) (hro : c.readOnly = true) (fuel : Nat) (h : Heap) (vals : List PVal)
+    (hw : Heap.wf h = true) (gds : List GDef) (fss : List FlatState) (idx1 : RefIndex)
+    (hf : flattenRoots h vals [] = .ok (gds, fss, idx1)) (d0 : Data) (htc : runFn c h vals = .ok ([.array d0], h))
+    (htb : ∃ vals1 h1 fss1, runFn f h vals = .ok (vals1, h1) ∧ FlatRoots h1 vals1 [] gds fss1 idx1)
+    (hk : KeepsCarryW c f gds idx1 fuel h vals) :
+    ∃ roots h4 valsE hE χ, whileCall c f fuel h vals = .ok (roots, h4) ∧ whileEager c f fuel h vals = .ok (valsE, hE) ∧
+      LoopRefines h valsE hE roots h4 χ :=
+  while_total c f hro fuel h vals (attrsNodup_of_wf hw) gds fss idx1 hf d0 htc htb hk
 
 /-- the pure value a traced body returns is the canonical form (`flatten`) of what the eager body leaves behind:
 same graphdef, same leaves, same `ref_index` -/
@@ -287,11 +398,12 @@ theorem cache_traces_on_miss_only (f : Fn) (c : JitCache) (h : Heap) (args : Lis
 
 /-- **`cached_partial` detects structure changes and otherwise behaves as `jit`**: an accepted call returns what the
 `jit` call returns; a call whose final graphdefs of the cached arguments differ from
-`graphdef.with_same_outer_index()` is rejected with `cacheMutated` -/
-theorem cached_partial_detects (f : Fn) (h : Heap) (args : List PVal) :
-    (∀ r, cachedPartialCall f h args = .ok r → jitCall f h args = .ok r) ∧
+`graphdef.with_same_outer_index()` is rejected with `cacheMutated` (the first `ncached` arguments are the cached ones,\nthe others are passed at each call) -/
+theorem cached_partial_detects (f : Fn) (ncached : Nat) (h : Heap) (args : List PVal) :
+    (∀ r, cachedPartialCall f ncached h args = .ok r → jitCall f h args = .ok r) ∧
     (∀ gds lss idx1 gdsO lssO, step1 true h args = .ok (gds, lss, idx1) → pureRun true true f [] gds lss = .ok (gdsO, lssO) →
-      gdsO.take args.length ≠ gds.map (stampWith (fun i => some i)) → cachedPartialCall f h args = .error .cacheMutated) := by
+      gdsO.take ncached ≠ (gds.take ncached).map (stampWith (fun i => some i)) →
+      cachedPartialCall f ncached h args = .error .cacheMutated) := by
   constructor
   · intro r hr
     unfold cachedPartialCall at hr
@@ -316,6 +428,44 @@ theorem cached_partial_detects (f : Fn) (h : Heap) (args : List PVal) :
     rw [hs1]
     simp only [hpr]
     rw [if_neg hne]
+
+/-! ## the excluded region, stated (findings F31, F32) -/
+
+/-- `m.c.w = Param(1)` -/
+def exDetachHeap : Heap :=
+  [ .node "A" [(.str "c", .ref 1)], .node "A" [(.str "w", .ref 2)], .var ["Param", "Variable"] 1 [] ]
+
+/-- `def f(m): c = m.c; w = c.w; x = w.value; w.value = x + 1; del m.c` -/
+def exDetachFn : Fn :=
+  { body := [.getAttr 0 (.str "c"), .getAttr 1 (.str "w"), .readVar 2, .setVar 2 (.add (.reg 3) (.const 1)),
+             .delAttr 0 (.str "c")], ret := [] }
+
+/-- **F31, on the model: an object the function detaches from its arguments is outside the refinement.**  Eagerly the
+caller's `c.w` (address 2) becomes 2; under `jit` it keeps its old value 1, because after the call it is not
+reachable from the arguments, so the outer merge never sees it (`RefinesEager.frame` says exactly that: a caller
+object outside the range of `ψ` is left as it was BEFORE the call).  The attribute deletion itself is propagated. -/
+theorem detached_object_update_lost :
+    (runFn exDetachFn exDetachHeap [.ref 0]).toOption.map (fun r => (r.2[0]?, r.2[2]?)) =
+      some (some (.node "A" []), some (.var ["Param", "Variable"] 2 [])) ∧
+    (jitCall exDetachFn exDetachHeap [.ref 0]).toOption.map (fun r => (r.2[0]?, r.2[2]?)) =
+      some (some (.node "A" []), some (.var ["Param", "Variable"] 1 [])) := by
+  decide
+
+/-- **F32, on the model: a metadata edit of an existing Variable does not cross the `jit` boundary.**  Suppose the inner
+Variable that stands for the caller's Variable `a` (outer index 0) comes back with new metadata `md'` and value `d`.
+With raw leaves (`nnx.jit`: `ctx.flatten(with_paths=False)`) the outer merge assigns only `raw_value`: the caller's
+Variable keeps its OLD metadata `md0`.  With `VariableState` leaves (remat / cond / loops: `update_from_state`) it
+takes `md'`.  (The mutation DSL has no metadata-edit statement, which is why `jit_refines_eager` holds.) -/
+theorem metadata_edit_dropped_by_raw_leaves (h : Heap) (a : Nat) (ty : VType) (v0 d : Data) (md0 md' : Meta)
+    (ha : h[a]? = some (.var ty v0 md0)) :
+    step4 h [a] [.var ty 0 (some 0) md'] [[.arr d]] = .ok ([.ref a], write h a (.var ty d md0)) ∧
+    step4 h [a] [.var ty 0 (some 0) md'] [[.vstate ty d md']] = .ok ([.ref a], write h a (.var ty d md')) := by
+  constructor <;> simp [step4, unflattenRootsO, unflattenO, ha]
+
+/-- every DSL statement keeps attribute keys distinct (so `Heap.wf`'s distinct-keys part is an invariant of any call) -/
+theorem dsl_preserves_distinct_keys (f : Fn) (h : Heap) (args rets : List PVal) (h1 : Heap) (n : AttrsNodup h)
+    (hr : runFn f h args = .ok (rets, h1)) : AttrsNodup h1 :=
+  runFn_nodup n hr
 
 /-! ## non-vacuity -/
 
@@ -388,8 +538,8 @@ def exBad : Fn := { body := [.getAttr 0 (.str "missing")], ret := [] }
 example : (match runFn exBad exHeap [.ref 0] with | .error e => some e | .ok _ => Option.none) = some Err.attrError ∧
     (match jitCall exBad exHeap [.ref 0] with | .error e => some e | .ok _ => Option.none) = some Err.attrError := by decide
 
-/-- the hypothesis `AttrsNodup` of the loop theorems: `vars(obj)` has distinct keys -/
-example : AttrsNodup exHeap := attrsNodup_of_check (by decide)
+/-- the hypothesis of the loop theorems: `vars(obj)` has distinct keys -/
+example : Heap.wf exHeap = true := by decide
 
 /-- `def body(i, (m, n)): w = m.w; x = w.value; w.value = x + i; return m, n` over the aliased carry `(m, m.c)` -/
 def exBody : Fn :=
@@ -400,6 +550,20 @@ example : (foriCall exBody 2 3 exHeap [.ref 0, .ref 1]).toOption.map (fun r => (
 
 example : (foriEager exBody 3 2 exHeap [.ref 0, .ref 1]).toOption.map (fun r => (r.1, r.2[2]?)) =
     some ([.ref 0, .ref 1], some (.var ["Param", "Variable"] 12 [])) := by decide
+
+/-- the hypotheses of `fori_loop_total` hold for `exBody` on the aliased carry `(m, m.c)`: three iterations keep the carry -/
+example : ∃ gds fss idx1, flattenRoots exHeap [.ref 0, .ref 1] [] = .ok (gds, fss, idx1) ∧
+    KeepsCarry exBody gds idx1 3 2 exHeap [.ref 0, .ref 1] :=
+  ⟨_, _, _, rfl, _, _, _, rfl, flatRoots_of_flattenRoots _ _ _ _ _ _ rfl,
+    _, _, _, rfl, flatRoots_of_flattenRoots _ _ _ _ _ _ rfl,
+    _, _, _, rfl, flatRoots_of_flattenRoots _ _ _ _ _ _ rfl, trivial⟩
+
+/-- the hypothesis of `switch_total` / `cond_total`: the two value-only branches announce the same output structure,
+the structure-changing branch a different one -/
+example : tracedDefs exT exHeap [.ref 0] = tracedDefs exF exHeap [.ref 0] := rfl
+
+example : (match tracedDefs exT exHeap [.ref 0], tracedDefs exS exHeap [.ref 0] with
+    | .ok a, .ok b => decide (a = b) | _, _ => true) = false := by decide
 
 /-- `while n < 3: m.w.value += n; n += 1` -/
 def exCond : Fn := { body := [.data (.lt (.reg 1) (.const 3))], ret := [2] }
@@ -419,9 +583,9 @@ example : ((callsFrom exT { entries := [], traces := 0 } [(exHeap, [.ref 0]), (e
 example : CacheOK exT { entries := [], traces := 0 } := cacheOK_empty exT 0
 
 /-- `cached_partial`: a value-only function is accepted, a structure change is detected -/
-example : (cachedPartialCall exT exHeap [.ref 0]).toOption.map (fun r => r.1) = some [.array 3] := by decide
+example : (cachedPartialCall exT 1 exHeap [.ref 0]).toOption.map (fun r => r.1) = some [.array 3] := by decide
 
-example : (match cachedPartialCall exS exHeap [.ref 0] with | .error e => some e | .ok _ => Option.none) =
+example : (match cachedPartialCall exS 1 exHeap [.ref 0] with | .error e => some e | .ok _ => Option.none) =
     some Err.cacheMutated := by decide
 
 end Flax.C04
